@@ -36,6 +36,8 @@ func runC03(c *eng.Ctx) {
 	ruleNothingCommittedMeansWait(c)
 	c.Rule("R03.15", "K3")
 	ruleAppendsWakeParkedCommittedReaders(c)
+	c.Rule("R03.16", "K2")
+	ruleOneRegistrationOneWait(c)
 	c.Rule("R03.4", "K1")
 	ruleReplacedWatermarkSegmentReinitialises(c)
 	c.Rule("R03.7", "K1")
@@ -475,10 +477,10 @@ func runC03(c *eng.Ctx) {
 		empty = append(empty, eng.CmpEdges(fn, eng.Call(-1, "server/commitlog.commitLog.HighWatermark"), eng.IntConst(-1), eng.EQ)...)
 		n := 0
 		for _, r := range eng.Returns(fn) {
-			if len(r.Results) != 2 || !eng.NilConst(r.Results[1]) {
+			if len(eng.RetVals(r)) != 2 || !eng.NilConst(eng.RetVals(r)[1]) {
 				continue
 			}
-			parked := readerSegIsNil(r.Results[0])
+			parked := readerSegIsNil(eng.RetVals(r)[0])
 			g, _ := eng.GuardedBy(fn, r, append(append([]eng.Edge{}, beyond...), empty...))
 			n++
 			if parked {
@@ -578,11 +580,11 @@ func runC03(c *eng.Ctx) {
 		// (F101) ... or the signal was "read-only" but the verdict no longer holds: the caller syncs and waits again
 		notRO = append(notRO, eng.BoolEdges(fn, eng.Call(-1, "server/commitlog.commitLog.isReadonlyEnd"), false)...)
 		for _, r := range eng.Returns(fn) {
-			if eng.Global("server/commitlog.ErrCommitLogReadonly")(r.Results[0]) {
+			if eng.Global("server/commitlog.ErrCommitLogReadonly")(eng.RetVals(r)[0]) {
 				g, _ := eng.GuardedBy(fn, r, isRO)
 				ro = g && len(isRO) > 0
 			}
-			if eng.NilConst(r.Results[0]) {
+			if eng.NilConst(eng.RetVals(r)[0]) {
 				g, w := eng.GuardedBy(fn, r, notRO)
 				c.Check(g && len(notRO) > 0, "plain wake-up returns nil only on the change signal", c.Pos(r), "nil only when the waiter received false", "waitForHW can return nil (keep reading) on the read-only signal (path "+w.String()+")")
 			}
